@@ -11,6 +11,11 @@
 (*        otherwise it denotes the double nearest to n/d (a correctly       *)
 (*        rounded quotient) and may only be compared, rounded or printed    *)
 (*        as a result -- arithmetic on it yields "unk".                     *)
+(*   [c |-> "pow2", s |-> 1 | -1, e |-> Int]   the double s*2^e for exponents  *)
+(*        far outside the "fin" range: 31 <= e <= 1023 (beyond 2^31, 2^53,   *)
+(*        2^63, 2^64 ...) or -1074 <= e <= -21 (down to the smallest         *)
+(*        subnormal).  Only operations whose IEEE result is certain are      *)
+(*        defined on it; everything else yields "unk".                      *)
 (*   [c |-> "unk"]   the specification does not determine the double        *)
 (*                   (judges skip such cases; never produced on the exact   *)
 (*                   sub-domain the generators stay in).                    *)
@@ -36,12 +41,21 @@ IsUnk(a) == a.c = "unk"
 IsInf(a) == a.c = "inf"
 IsZero(a) == a.c = "zero"
 IsFin(a) == a.c = "fin"
+IsP2(a) == a.c = "pow2"
+Pow2(s, e) == [c |-> "pow2", s |-> s, e |-> e]
+\* 2^e as a double: overflow to infinity above 1023, underflow to zero below -1074 (ties-to-even at -1075)
+MkPow2(s, e) == IF e > 1023 THEN Inf(s) ELSE IF e < -1074 THEN Zero(s) ELSE IF e >= 31 \/ e <= -21 THEN Pow2(s, e) ELSE [c |-> "unk"]
+RECURSIVE PowMod(_, _, _)
+PowMod(b, e, m) == IF e = 0 THEN 1 % m ELSE IF e % 2 = 0 THEN LET h == PowMod(b, e \div 2, m) IN (h * h) % m ELSE (b * PowMod(b, e - 1, m)) % m
 
+RECURSIVE Log2(_)
+Log2(d) == IF d = 1 THEN 0 ELSE 1 + Log2(d \div 2)
 RECURSIVE IsPow2(_)
 IsPow2(d) == IF d = 1 THEN TRUE ELSE IF d % 2 # 0 THEN FALSE ELSE IsPow2(d \div 2)
 \* exact == the abstract value is exactly a double
 Exact(a) == IF a.c = "fin" THEN IsPow2(a.d) ELSE a.c # "unk"
-Sgn(a) == IF a.c \in {"inf", "zero", "fin"} THEN a.s ELSE 1
+Small(a) == a.c \in {"fin", "zero"}
+Sgn(a) == IF a.c \in {"inf", "zero", "fin", "pow2"} THEN a.s ELSE 1
 SN(a) == a.s * a.n   \* signed numerator of a fin
 
 Neg(a) == CASE a.c = "nan" -> a
@@ -57,6 +71,12 @@ Add(a, b) ==
   ELSE IF IsInf(b) THEN b
   ELSE IF IsZero(a) THEN (IF IsZero(b) THEN (IF a.s = -1 /\ b.s = -1 THEN Zero(-1) ELSE Zero(1)) ELSE b)
   ELSE IF IsZero(b) THEN a
+  ELSE IF IsP2(a) \/ IsP2(b) THEN
+    \* x + x = 2x, x - x = +0; a huge value absorbs a small one (|small| < 2^31 is below half an ulp of 2^85 and more)
+    (IF IsP2(a) /\ IsP2(b) /\ a.e = b.e THEN (IF a.s = b.s THEN MkPow2(a.s, a.e + 1) ELSE Zero(1))
+     ELSE IF IsP2(a) /\ a.e >= 85 /\ IsFin(b) THEN a
+     ELSE IF IsP2(b) /\ b.e >= 85 /\ IsFin(a) THEN b
+     ELSE Unk)
   ELSE IF ~Exact(a) \/ ~Exact(b) THEN Unk
   ELSE Mk(SN(a) * b.d + SN(b) * a.d, a.d * b.d, 1)
 
@@ -69,6 +89,11 @@ Mul(a, b) ==
     IF (IsInf(a) /\ IsZero(b)) \/ (IsZero(a) /\ IsInf(b)) THEN Nan
     ELSE IF IsInf(a) \/ IsInf(b) THEN Inf(s)
     ELSE IF IsZero(a) \/ IsZero(b) THEN Zero(s)
+    ELSE IF IsP2(a) /\ IsP2(b) THEN MkPow2(s, a.e + b.e)
+    ELSE IF IsP2(a) \/ IsP2(b) THEN
+      \* 2^e times a power of two 2^k or 1/2^k
+      LET p == IF IsP2(a) THEN a ELSE b  f == IF IsP2(a) THEN b ELSE a IN
+      IF f.n = 1 /\ IsPow2(f.d) THEN MkPow2(s, p.e - Log2(f.d)) ELSE IF f.d = 1 /\ IsPow2(f.n) THEN MkPow2(s, p.e + Log2(f.n)) ELSE Unk
     ELSE IF ~Exact(a) \/ ~Exact(b) THEN Unk
     ELSE Fin(s, a.n * b.n, a.d * b.d)
 
@@ -79,6 +104,9 @@ Div(a, b) ==
     IF (IsInf(a) /\ IsInf(b)) \/ (IsZero(a) /\ IsZero(b)) THEN Nan
     ELSE IF IsInf(a) \/ IsZero(b) THEN Inf(s)
     ELSE IF IsZero(a) \/ IsInf(b) THEN Zero(s)
+    ELSE IF IsP2(a) /\ IsP2(b) THEN (IF a.e - b.e \in -20..30 THEN Unk ELSE MkPow2(s, a.e - b.e))   \* (a quotient back in the small range is left undetermined)
+    ELSE IF IsP2(b) /\ IsFin(a) /\ a.n = 1 /\ a.d = 1 THEN MkPow2(s, -b.e)                                         \* 1 div 2^e
+    ELSE IF IsP2(a) \/ IsP2(b) THEN Unk
     ELSE IF ~Exact(a) \/ ~Exact(b) THEN Unk
     ELSE Fin(s, a.n * b.d, a.d * b.n)
 
@@ -88,6 +116,10 @@ Mod(a, b) ==
   ELSE IF IsUnk(a) \/ IsUnk(b) THEN Unk
   ELSE IF IsInf(a) \/ IsZero(b) THEN Nan
   ELSE IF IsInf(b) \/ IsZero(a) THEN a
+  ELSE IF IsP2(b) THEN (IF IsFin(a) /\ b.e >= 31 THEN a ELSE IF IsP2(a) /\ a.e < b.e THEN a ELSE IF IsP2(a) THEN Zero(a.s) ELSE Unk)   \* |a| < |b|: a itself; 2^i mod 2^j (i >= j) = 0
+  ELSE IF IsP2(a) THEN
+    \* 2^e mod an integer m (e >= 31): exact, by modular exponentiation; sign of the dividend
+    (IF a.e >= 31 /\ IsFin(b) /\ b.d = 1 THEN Mk(a.s * PowMod(2, a.e, b.n), 1, a.s) ELSE Unk)
   ELSE IF ~Exact(a) \/ ~Exact(b) THEN Unk
   ELSE Mk(a.s * ((a.n * b.d) % (b.n * a.d)), a.d * b.d, a.s)
 
@@ -97,6 +129,13 @@ Cmp(a, b) == \* -1, 0, 1 for comparable values; 2 when unordered; 3 unknown
   ELSE IF IsNan(a) \/ IsNan(b) THEN 2
   ELSE IF IsInf(a) THEN (IF IsInf(b) /\ b.s = a.s THEN 0 ELSE a.s)
   ELSE IF IsInf(b) THEN -b.s
+  ELSE IF IsP2(a) \/ IsP2(b) THEN
+    \* magnitude classes: tiny (2^e, e <= -21) < every fin < big (2^e, e >= 31); zero below all
+    LET Key(z) == IF IsZero(z) THEN <<0, 0>> ELSE IF IsP2(z) THEN <<z.s * (IF z.e >= 31 THEN 3 ELSE 1), z.s * z.e>> ELSE <<z.s * 2, 0>>
+        ka == Key(a) kb == Key(b)
+    IN IF ka[1] # kb[1] THEN (IF ka[1] < kb[1] THEN -1 ELSE 1)
+       ELSE IF IsP2(a) /\ IsP2(b) THEN (IF ka[2] < kb[2] THEN -1 ELSE IF ka[2] = kb[2] THEN 0 ELSE 1)
+       ELSE 3
   ELSE LET x == IF IsZero(a) THEN 0 ELSE SN(a)
            xd == IF IsZero(a) THEN 1 ELSE a.d
            y == IF IsZero(b) THEN 0 ELSE SN(b)
@@ -112,19 +151,23 @@ NumKnown(a, b) == Cmp(a, b) # 3
 
 FloorDiv(sn, d) == IF sn >= 0 THEN sn \div d ELSE -(((-sn) + d - 1) \div d)
 
-Floor(a) == IF a.c # "fin" THEN a
+\* 2^e: an integer for e >= 0, a tiny fraction for e < 0
+Floor(a) == IF IsP2(a) THEN (IF a.e >= 0 THEN a ELSE IF a.s = 1 THEN Zero(1) ELSE Fin(-1, 1, 1))
+            ELSE IF a.c # "fin" THEN a
             ELSE Mk(FloorDiv(SN(a), a.d), 1, a.s)
-Ceil(a) == IF a.c # "fin" THEN a
+Ceil(a) == IF IsP2(a) THEN (IF a.e >= 0 THEN a ELSE IF a.s = 1 THEN Fin(1, 1, 1) ELSE Zero(-1))
+           ELSE IF a.c # "fin" THEN a
            ELSE Mk(-FloorDiv(-SN(a), a.d), 1, a.s)
 \* round(): closest integer, ties toward +infinity; [-0.5, -0) gives -0
-Round(a) == IF a.c # "fin" THEN a
+Round(a) == IF IsP2(a) THEN (IF a.e >= 0 THEN a ELSE Zero(a.s))
+            ELSE IF a.c # "fin" THEN a
             ELSE Mk(FloorDiv(2 * SN(a) + a.d, 2 * a.d), 1, a.s)
 
 \* Known finding "round-neg-tie-down" (see known_findings.json): the code rounds negative ties
 \* below -0.5 away from zero (round(-1.5) = -2), pinned by the repository's TestFunctionRound
 RoundNegTieDown(a) == IF a.c = "fin" /\ a.s = -1 /\ a.d = 2 /\ a.n > 1 THEN Floor(a) ELSE Round(a)
 
-IsInteger(a) == a.c = "zero" \/ (a.c = "fin" /\ a.d = 1)
+IsInteger(a) == a.c = "zero" \/ (a.c = "fin" /\ a.d = 1) \/ (a.c = "pow2" /\ a.e >= 0)
 
 \* the integer value of a numeral that IsInteger
 IntVal(a) == IF a.c = "zero" THEN 0 ELSE SN(a)
